@@ -17,7 +17,7 @@ import (
 // Fault is one scripted environment event of a network scenario, applied at the start of round AtRound
 // (virtual time of V-independent global clock).
 type Fault struct {
-	Kind    string // partition | heal | stop | restart | cut | uncut
+	Kind    string // partition | heal | stop | restart | cut | uncut | dbfail
 	Node    int
 	Peer    int // for cut/uncut
 	AtRound uint64
@@ -39,6 +39,10 @@ type Scenario struct {
 	Scripts     [][]Fault // alternative fault scripts (free choice)
 	Drop        bool      // every partial delivery is an explorer choice deliver/drop
 	EarlyTimers bool
+	// SilentCuts: open sync streams crossing a partition stall instead of ending (see Net.SilentCuts)
+	SilentCuts bool
+	// SyncPacketLatency: see Net.SyncPacketLatency
+	SyncPacketLatency time.Duration
 	// Prefill gives per node the number of rounds already stored before the handlers start (the nodes then
 	// start with Catchup instead of Start and the clock at the start of round StartRound).
 	Prefill    []uint64
@@ -120,6 +124,8 @@ func (sc *Scenario) Run(devs []vrt.Dev, labels bool) *ScenarioResult {
 		}
 		nt := NewNet(k)
 		nt.DropChoice = sc.Drop
+		nt.SilentCuts = sc.SilentCuts
+		nt.SyncPacketLatency = sc.SyncPacketLatency
 		nt.Latency = sc.Latency
 		if nt.Latency == 0 {
 			nt.Latency = 10 * time.Millisecond
@@ -197,6 +203,18 @@ func (sc *Scenario) Run(devs []vrt.Dev, labels bool) *ScenarioResult {
 						nt.SetCut(f.Node, f.Peer, true)
 					case "uncut":
 						nt.SetCut(f.Node, f.Peer, false)
+					case "dbfail":
+						// the node's next database write fails once (I/O error, cancelled context): the node must neither
+						// lose the round for good nor store a chain with a hole
+						armed := true
+						nd.Mon.Fail = func(b *common.Beacon) error {
+							if armed {
+								armed = false
+								vrt.Logf("node %d: injected failure of the database write of round %d", nd.Idx, b.Round)
+								return fmt.Errorf("injected: database write failed")
+							}
+							return nil
+						}
 					case "stop":
 						nd.Down = true
 						nd.H.Stop(ctx)
@@ -246,6 +264,7 @@ func (sc *Scenario) JudgeSafety(r *ScenarioResult, prefix string) *explore.Exec 
 	}
 	chained := k.SchemeID == "pedersen-bls-chained"
 	byRound := map[uint64]*common.Beacon{}
+	held, heldBy := map[uint64]*common.Beacon{}, map[uint64]int{}
 	var heads []string
 	for i, nd := range r.Net.Nodes {
 		pre := uint64(0)
@@ -265,15 +284,29 @@ func (sc *Scenario) JudgeSafety(r *ScenarioResult, prefix string) *explore.Exec 
 			}
 			next = b.Round + 1
 			if o, ok := byRound[b.Round]; ok {
-				if !bytes.Equal(o.Signature, b.Signature) || (chained && !bytes.Equal(o.PreviousSig, b.PreviousSig)) {
+				// byte-identical: also the previous-signature field (empty everywhere on unchained schemes)
+				if !bytes.Equal(o.Signature, b.Signature) || !bytes.Equal(o.PreviousSig, b.PreviousSig) {
 					add("disagreement", "two nodes hold different beacons for round %d", b.Round)
 				}
 			} else {
 				byRound[b.Round] = b
 			}
 		}
-		// final store content: 0..head contiguous, chained links
+		// final store content: 0..head contiguous, chained links, and byte-identical with what every other node holds
 		dump := nd.Dump()
+		for _, b := range dump {
+			if b.Round == 0 {
+				continue
+			}
+			if o, ok := held[b.Round]; ok {
+				if !bytes.Equal(o.Signature, b.Signature) || !bytes.Equal(o.PreviousSig, b.PreviousSig) {
+					add("store-disagreement", "node %d reads back round %d as (sig %x.., prev %x..) while node %d reads back (sig %x.., prev %x..)", i, b.Round,
+						head4(b.Signature), head4(b.PreviousSig), heldBy[b.Round], head4(o.Signature), head4(o.PreviousSig))
+				}
+			} else {
+				held[b.Round], heldBy[b.Round] = b, i
+			}
+		}
 		for j, b := range dump {
 			if j > 0 && b.Round != dump[j-1].Round+1 {
 				add("store-gap", "node %d's store holds round %d after round %d", i, b.Round, dump[j-1].Round)
@@ -611,4 +644,11 @@ func (sc *Scenario) JudgeReshare(r *ScenarioResult, x *explore.Exec, prefix stri
 		}
 	}
 	x.Outcome += fmt.Sprintf(" reshare=%s old-share-probes=%d", rs.Name, len(r.OldShare))
+}
+
+func head4(b []byte) []byte {
+	if len(b) > 4 {
+		return b[:4]
+	}
+	return b
 }
